@@ -430,6 +430,11 @@ func (c10) Eval(t *testing.T, c *Case, dec func(int) *Decider) *Outcome {
 			}
 			dir, err := realCrash(bin, sc, img.Point, img.Nth)
 			o.RealProc++
+			if err != nil && strings.Contains(err.Error(), "timed out") {
+				o.Notes = append(o.Notes, "a real-process run stalled once: "+err.Error())
+				dir, err = realCrash(bin, sc, img.Point, img.Nth)
+				o.RealProc++
+			}
 			if err != nil {
 				o.viol(prop, "fidelity", "real-process-error", err.Error())
 				continue
